@@ -8,7 +8,18 @@ _W = (['w-cases-f32', 'w-cases-f80'] +
                                             '-reconstruction-bound', '-extraction-equals-stored', '_solve-exact', '_solve-residual-bound',
                                             '_inv-exact', '_inv_-exact', '_inv-column-bound', '_inv_-column-bound', '_det-exact',
                                             '_det-vs-pivot-product', '_lndet-vs-log-pivots')] +
-      ['w-plu-shape', 'w-plu_sgndet-vs-pivot-signs', 'w-ldl_sgndet-vs-pivot-signs'])
+      ['w-plu-shape', 'w-plu_sgndet-vs-pivot-signs', 'w-ldl_sgndet-vs-pivot-signs'] +
+      # the sweeps on their own, every documented argument form (see _FORMS below)
+      ['w-' + f + '-sweeps-on-compact' for f in _FAM] +
+      ['w-plu-sweeps-on-extracted-LU', 'w-ldl-sweeps-on-extracted-LD', 'w-llt-sweeps-on-extracted-L',
+       'w-plu-sweeps-on-compact-rest-huge', 'w-plu-sweeps-on-compact-rest-nan', 'w-llt-sweeps-on-compact-upper-huge',
+       'w-llt-sweeps-on-compact-upper-nan', 'w-plu-sweeps-on-user-built-factor', 'w-llt-sweeps-on-user-built-factor'])
+
+# full harness: the triangular sweeps on every argument form the header documents for them (check_forms / check_user_built)
+_FORMS = ['plu-sweeps-on-extracted-LU', 'plu-sweeps-on-compact-rest-1e300', 'plu-sweeps-on-compact-rest-nan',
+          'llt-sweeps-on-extracted-L', 'llt-sweeps-on-compact-upper-1e300', 'llt-sweeps-on-compact-upper-nan',
+          'ldl-sweeps-on-extracted-LD', 'sweeps-on-user-built-factor', 'user-built-ldl-storage-holds-L0-D0',
+          'plu-forms-diff-to-compact', 'ldl-forms-diff-to-compact', 'llt-forms-diff-to-compact']
 
 SPEC = dict(
     harness=['h_linalg_fact.c'],
@@ -26,6 +37,23 @@ SPEC = dict(
          'library writes has 2x8 guard cells inside its allocation, every read-only argument is an exact-size malloc block (ASan) and is '
          'compared with a snapshot after the call. Exact-failure classes (pivot exactly 0 / <= 0 in floating point by construction) must '
          'report failure, exactly factorable classes must report success; other inputs are judged only when success is reported. '
+         'ARGUMENT FORMS: include/a/linalg.h documents the argument of plu_lower(_), plu_upper(_), llt_lower(_), llt_upper(_) as "the lower / upper '
+         'triangular matrix L / U, stored in row-major order" and the argument of every other routine (all ldl routines included) as "the matrix '
+         'containing L and U / L and D / L form in a compact form after ... decomposition". The latter always get the storage the factorization left, '
+         'unmodified. The four sweep pairs are in one judged case in three (in place of the second right-hand side of the compact pipeline) also driven, '
+         'plain and strided, with (a) the matrices a_real_plu_L / a_real_plu_U / a_real_llt_L deliver (exact-size blocks, zeros on the other side) and '
+         '(b) copies of the storage in which every entry that is not part of the argument - strictly upper triangle (llt), diagonal and strictly upper '
+         'triangle (plu_lower: unit diagonal implied), strictly lower triangle (plu_upper) - is +-1e300 in one variant and NaN in another; every sweep is '
+         'judged by the same gamma_{n+1}|T||x| oracle and the chain apply -> lower -> upper by the residual oracle of <fam>_solve; a non-finite result is '
+         'accepted only where the same sweep on the storage is non-finite too. LDL^T: the unit lower L and d delivered by a_real_ldl_L / a_real_ldl_D go '
+         'through the generic sweeps a_real_plu_lower, y/d (harness), a_real_llt_upper (documented for any lower triangular matrix; the operations of '
+         'ldl_lower + ldl_upper in the same order), same oracles. NOT judged, only recorded (counters "...(not judged)", *-forms-diff maxima): the '
+         'difference of every such result to the result on the storage; the ldl routines on a storage whose strictly upper triangle is poisoned, '
+         'ldl_lower and llt_solve on the extracted L (the header does not say what a_real_ldl leaves above the diagonal, and documents llt_solve for the '
+         'storage). One case in four also builds integer triangular factors itself (|t| <= 3, diagonal 1 / 1,2,4 / +-1,+-2,+-4, zeros on the other '
+         'side, rhs = T*x0, |x0| <= 4: every intermediate of any summation order is an exactly representable integer, divisions are by powers of two) '
+         'and requires plu_lower(_), plu_upper(_), llt_lower(_), llt_upper(_) to return x0 with ==; for LDL^T the integer L0 D0 L0^T is factored by the '
+         'library and ldl_lower(_) / ldl_upper(_) are judged the same way on that storage when it holds exactly L0, D0. '
          'Extreme-scaling ("xscale") classes: PLU D1*B*D2 with rows and/or columns of a well-conditioned dense / small-integer B scaled by '
          '2^e, e spread over +-960 (rows or columns) or +-480 (both), a global scaling that puts the largest entry next to DBL_MAX or the '
          'smallest next to DBL_MIN, huge rows over tiny columns whose multipliers underflow to exactly 0 by construction, and exact '
@@ -45,12 +73,14 @@ SPEC = dict(
          'Configurations f32 / f80 (a_real = float / long double, counters w-*, keys ending /f32 or /f80): the companion harness judges, with '
          'every array an exact-size 0xA5-filled malloc block, (exact) A = Q*L0*U0 with multipliers k/4 and integer U0, integer L0*D0*L0^T and '
          'L0*L0^T: stored factors, p, sign, solve of b = A*x0, integer determinant compared with ==, and A*X == I exactly for inv and inv_ '
-         'when n <= 4; (rounded) random full-mantissa matrices against the same componentwise bounds with u = A_REAL_EPSILON/2, c = 4, '
+         'when n <= 4; the sweeps on their own (plain and strided chain apply -> lower -> upper == x0 resp. within the solve bound) on the storage, on the '
+         'extracted L / U (ldl: extracted L, d through plu_lower, /d, llt_upper), on the storage with the entries outside the argument set to '
+         '+-2^(MAX_EXP-8) / NaN (plu, llt) and on the generator\'s own L0 / U0 with zeros on the other side (plu, llt, exact kinds); (rounded) random full-mantissa matrices against the same componentwise bounds with u = A_REAL_EPSILON/2, c = 4, '
          'lndet within c*(n+2)*eps*sum|log|pivot||; (exactly singular) zeroed u_kk / d_k, lowered Cholesky pivot, zero column, 2^k-multiple '
          'rows, zero matrix must fail; (full range) permutation / diagonal / row-scaled triangular matrices with pivots 2^k, '
          'A_REAL_MIN_EXP-1 <= k <= A_REAL_MAX_EXP-3, must succeed with factors == input, solve == x0, exact inverse; P, P_, L, U, D == stored.',
     exhaustive={'quick': None, 'thorough': None},
-    require=_W + ['guard-cells-intact', 'const-input-intact',
+    require=_W + _FORMS + ['guard-cells-intact', 'const-input-intact',
              'exact-zero-pivot-reports-failure', 'exactly-factorable-reports-success',
              'plu-failure-reported', 'ldl-failure-reported', 'llt-failure-reported',
              'plu-p-is-permutation', 'plu-sign-equals-parity', 'plu-multipliers-le-1', 'plu-pivots-nonzero',
@@ -84,13 +114,16 @@ SPEC = dict(
         'x87 long double (A_SIZE_REAL=16, f80) builds are executed by the compact type-generic companion harness/h_linalg_fact_w.c only: '
         'n <= 12, four kinds of input per family (exactly factorable dyadic / integer, full-mantissa random with scaling <= 2^+-12, exactly '
         'singular, no-arithmetic matrices whose pivots are 2^k anywhere in the normal range of the working type); the extreme-scaling classes '
-        'with underflowing products, the plain / strided triangular sweeps on their own, guard cells inside the allocations and input '
+        'with underflowing products, the per-sweep residual oracle of the plain / strided triangular sweeps (their chain is judged), guard cells inside the allocations and input '
         'snapshots of the full harness are not repeated there (exact-size 0xA5-filled blocks under ASan are)',
         'underflow is modelled by the standard gradual-underflow term (absolute error <= 2^-1074 per product / quotient, sums exact), which '
         'is part of every bound; an overflow (non-finite factor or solution) is accepted only on the xscale classes and on plain LDL^T of '
         'indefinite matrices, where it is counted and skipped; n <= 48; the determinant product is judged only while every partial '
         'product stays within 2^+-440',
         'LDL and LLT inputs are exactly symmetric; operands do not alias except where the header says in/out',
+        'argument forms: a "lower (upper) triangular matrix" argument is taken to consist of the entries on and below (above) the diagonal only, with '
+        'the unit diagonal of the LU factor L implied (a_real_plu_solve itself passes the storage, whose diagonal holds U); routines documented for the '
+        'compact storage are never given anything else in a judged clause',
         'a_real_plu_P_ is undocumented; it is taken to be the transpose (inverse permutation matrix) of a_real_plu_P',
     ],
     level_text='The refuting events are numerical (a factor entry, solution or inverse column outside the standard componentwise backward-error '
